@@ -40,6 +40,10 @@ def is_detritus(subp):
 def iter_deletables(tree, unknown=False, ignored=False, detritus=False):
     """Iterate through files that may be deleted."""
     for subp in tree.extras():
+        if controldir.is_control_filename(os.path.basename(subp)):
+            # never offer the control directory of another version control
+            # system sharing this working directory (e.g. .git) for deletion
+            continue
         if detritus and is_detritus(subp):
             yield tree.abspath(subp), subp
             continue
